@@ -263,7 +263,7 @@ def step (line : String) : String :=
         -- the model is the balancer model pushed through Model/GroupGlue (topics32 iterated in reverse order)
         -- ops v<balancer>: as g<balancer>, `impl` is Generation.Assignments of every member (after makeAssignments);
         -- the model applies `GroupGlue.makeAssignments` with the member's own topic list to its table entry
-        let viaView := op.startsWith "v"
+        let viaView := op.startsWith "v" || op.startsWith "l"   -- l<balancer>: the same view, observed on real concurrent ConsumerGroups
         let viaGlue := op.startsWith "g" || viaView
         let bop := if viaGlue then (op.drop 1).toString else op
         -- `thru m` = `KV.GroupGlue.delivered List.reverse m ids ts` evaluated through a table (see `glueTable`)
